@@ -40,6 +40,7 @@ class Ev:
     """Recording evaluator with personalities."""
 
     def __init__(self, spec, personality, garbage, info=True):
+        self.spec = spec
         self.ens = ens.Ensemble(spec["ensemble"])
         self.n_obj, self.n_con = len(spec["oweights"]), spec.get("n_con", 0)
         self.nan = spec.get("nan", [])
@@ -74,6 +75,11 @@ class Ev:
         for rule in self.nan:
             rows = np.flatnonzero((rec["realizations"] == rule["r"]) & (perts == rule["p"]))
             vals[rows, rule["col"]] = np.nan
+        if self.spec.get("_inf_values"):
+            # infinite values are values (only NaN marks a failure): deterministic in the call index and row
+            for i in range(n):
+                if (k * 31 + i * 7) % 11 == 0:
+                    vals[i, (k + i) % F] = np.inf if (k + i) % 2 else -np.inf
         true_vals = vals.copy()
         for j in range(self.n_obj):
             if rec["ao"] is not None:
@@ -149,6 +155,8 @@ def gen_spec(rng):
         m = rng.random(V) < 0.6
         m[int(rng.integers(V))] = True
         spec["mask"] = m.tolist()
+    if rng.random() < 0.15:
+        spec["_inf_values"] = True
     nan = []
     F = n_obj + n_con
     if rng.random() < 0.35:
